@@ -237,7 +237,7 @@ FloatOK = UF('float.ok', StrS, BoolS)
 FloatVal = UF('float', StrS, RealS)
 FloatFinite = UF('float.isfinite', StrS, BoolS)
 re_sub_cur = UF('re.sub[currency]', StrS, StrS)
-replace_all = UF('str.replace_all', StrS, StrS, StrS, StrS)
+replace_all = UF('py.str.replace', StrS, StrS, StrS, StrS)
 
 
 def h_parse_amount(ctx):
